@@ -2,21 +2,25 @@
   C01/ForInModel — otto's for-in evaluator as a pure function over an abstract body step, and the
   ES5 §12.6.4 reading of the same statement.
 
-  MODEL: transcription of cmplEvaluateNodeForInStatement (cmpl_evaluate_statement.go:182-250, after
-  the undefined/null test and ToObject) together with objectEnumerate (object_class.go:22-38):
-  an outer loop over the prototype chain (`for obj != nil`), an inner loop over a snapshot of the
-  object's property names, the flags `obj = nil` / `return false` by which the body's abrupt
-  completions stop both loops, and the two accumulators `result` / `enumerateValue`.
+  MODEL: transcription of cmplEvaluateNodeForInStatement (cmpl_evaluate_statement.go, after the
+  undefined/null test and ToObject) together with objectEnumerate (object_class.go): an outer loop
+  over the prototype chain (`for obj != nil`), an inner loop over a snapshot of the object's property
+  names, the flags `obj = nil` / `return false` by which the body's abrupt completions stop both
+  loops, the two accumulators `result` / `enumerateValue`, and the `visited` set, which exists only
+  when the enumerated object has a prototype.
 
-  SPEC: §12.6.4 steps 5–7 over the list of properties to visit, computed when the statement starts:
-  the enumerable own properties, then the prototype chain's, leaving out every name that an object
-  nearer the start of the chain has (enumerable or not); a property deleted before its turn is not
-  visited; any abrupt completion other than a consumed continue ends the whole statement.
-  (This is `FnSpec.enumKeys` / `FnSpec.evalForIn` with the body abstracted.)
+  SPEC: §12.6.4 steps 5–7 as ONE loop over all the properties of the chain in turn: a property is
+  visited when its turn comes if it has not been deleted, is enumerable, is not shadowed (no object
+  nearer the start of the chain has a property of that name, enumerable or not) and its NAME has not
+  been visited before ("A property name must not be visited more than once in any enumeration");
+  V is the last value the body produced; break ends the statement with (normal, V, empty), any other
+  abrupt completion that is not a consumed continue ends it with that completion.
+  (`specStatic` is the other reading, used by FnSpec.evalForIn: what shadows what is fixed when the
+  statement starts. The two coincide when shadowing does not change – `ForInThm.spec_eq_static`.)
 
-  Abstraction: the object at position `i` of the chain is given by the list `(name, enumerable)` of the
-  own properties it has when the statement starts, in enumeration order; `has s i k` says whether
-  object `i` still (or again) has an own property `k` in state `s`.  The body (PutValue of the name into
+  Abstraction: the object at position `i` of the chain is the list `(name, enumerable)` of the own
+  properties it has when the statement starts, in enumeration order, names distinct; `has s i k`
+  says whether object `i` has an own property `k` in state `s`.  The body (PutValue of the name into
   the loop variable, then the statement) is an arbitrary function of the name and the state.
 -/
 namespace OttoVerif.C01.ForIn
@@ -38,14 +42,12 @@ inductive Fin (σ ρ ν : Type) where
   | abrupt (r : ρ) (s : σ)
 deriving DecidableEq
 
-/-- forget the completion value of a statement left by break (Dev region `forin_break_value`) -/
-def Fin.obs {σ ρ ν : Type} : Fin σ ρ ν → Fin σ ρ ν
-  | .broke _ s => .broke none s
-  | f => f
+/-- the own properties of one object: (name, enumerable), each name once -/
+structure Obj (κ : Type) where
+  props : List (κ × Bool)
+  nodup : (props.map (·.1)).Nodup
 
-abbrev Props (κ : Type) := List (κ × Bool)
-
-def names {κ : Type} (o : Props κ) : List κ := o.map (·.1)
+def Obj.names {κ : Type} (o : Obj κ) : List κ := o.props.map (·.1)
 
 /-- V := v unless v is empty -/
 def orV {ν : Type} (a b : Option ν) : Option ν :=
@@ -56,76 +58,100 @@ def orV {ν : Type} (a b : Option ν) : Option ν :=
 section
 variable {κ σ ρ ν : Type} [DecidableEq κ]
 
-/-! ## Model -/
-
-/-- the result of objectEnumerate over one object -/
-inductive Inner (σ ρ ν : Type) where
-  | finished (ev : Option ν) (s : σ)     -- every name handled; `ev` = enumerateValue
-  | stopped (s : σ)                      -- `obj = nil; return false` after break
-  | exited (r : ρ) (s : σ)               -- `result = value; obj = nil; return false`
-
-/-- cmpl_evaluate_statement.go:206-210: `for shadow := sourceObject; shadow != obj; shadow = shadow.prototype` -/
+/-- `for shadow := sourceObject; shadow != obj; shadow = shadow.prototype { if shadow.getOwnProperty(name) != nil … }` -/
 def shadowNow (has : σ → Nat → κ → Bool) (s : σ) (i : Nat) (k : κ) : Bool :=
   (List.range i).any fun j => has s j k
 
-/-- objectEnumerate(obj, false, each) over the snapshot `names` of object `i` -/
-def inner (has : σ → Nat → κ → Bool) (body : κ → σ → Out σ ρ ν) (i : Nat) : Props κ → σ → Option ν → Inner σ ρ ν
-  | [], s, ev => .finished ev s
-  | (k, en) :: r, s, ev =>
-    -- `if !exists continue`, `if all || prop.enumerable()`, then the shadow test inside `each`
-    if has s i k && en && !shadowNow has s i k then
+/-! ## Model -/
+
+/-- the result of objectEnumerate over one object -/
+inductive Inner (σ ρ ν κ : Type) where
+  | finished (ev : Option ν) (s : σ) (vis : List κ)   -- every name handled; `ev` = enumerateValue
+  | stopped (res : Option ν) (s : σ)                  -- break: `result = enumerateValue` if not empty; `obj = nil; return false`
+  | exited (r : ρ) (s : σ)                            -- `result = value; obj = nil; return false`
+
+/-- objectEnumerate(obj, false, each) over the snapshot of object `i`.  `rc` = the `visited` map
+    exists (`visited != nil`); `res` = `result` so far (only read on break). -/
+def inner (has : σ → Nat → κ → Bool) (body : κ → σ → Out σ ρ ν) (i : Nat) (rc : Bool) (res : Option ν) :
+    List (κ × Bool) → σ → Option ν → List κ → Inner σ ρ ν κ
+  | [], s, ev, vis => .finished ev s vis
+  | (k, en) :: r, s, ev, vis =>
+    -- `if !exists continue`, `if all || prop.enumerable()`, then inside `each`: the shadow test, the visited test
+    if has s i k && en && !shadowNow has s i k && !(rc && vis.contains k) then
+      let vis' := if rc then k :: vis else vis
       match body k s with
-      | .normal v s' => inner has body i r s' (orV v ev)
-      | .cont v s' => inner has body i r s' (orV v ev)            -- resultContinue: `return true`
-      | .brk _ s' => .stopped s'                                   -- resultBreak
-      | .exit x s' => .exited x s'                                 -- resultReturn
-    else inner has body i r s ev
+      | .normal v s' => inner has body i rc res r s' (orV v ev) vis'
+      | .cont v s' => inner has body i rc res r s' (orV v ev) vis'     -- resultContinue: `return true`
+      | .brk v s' => .stopped (orV (orV v ev) res) s'                   -- resultBreak
+      | .exit x s' => .exited x s'                                      -- resultReturn
+    else inner has body i rc res r s ev vis
 
 /-- `for obj != nil { enumerateValue := empty; obj.enumerate(…); if obj == nil { break };
      obj = obj.prototype; if !enumerateValue.isEmpty() { result = enumerateValue } }; return result` -/
-def outer (has : σ → Nat → κ → Bool) (body : κ → σ → Out σ ρ ν) : Nat → List (Props κ) → σ → Option ν → Fin σ ρ ν
-  | _, [], s, res => .exhausted res s
-  | i, o :: rest, s, res =>
-    match inner has body i o s none with
-    | .finished ev s' => outer has body (i+1) rest s' (orV ev res)
-    | .stopped s' => .broke res s'
+def outer (has : σ → Nat → κ → Bool) (body : κ → σ → Out σ ρ ν) (rc : Bool) :
+    Nat → List (Obj κ) → σ → Option ν → List κ → Fin σ ρ ν
+  | _, [], s, res, _ => .exhausted res s
+  | i, o :: rest, s, res, vis =>
+    match inner has body i rc res o.props s none vis with
+    | .finished ev s' vis' => outer has body rc (i+1) rest s' (orV ev res) vis'
+    | .stopped res' s' => .broke res' s'
     | .exited x s' => .abrupt x s'
 
-def ottoForIn (has : σ → Nat → κ → Bool) (body : κ → σ → Out σ ρ ν) (chain : List (Props κ)) (s : σ) : Fin σ ρ ν :=
-  outer has body 0 chain s none
+/-- `if sourceObject.prototype != nil { visited = map[string]bool{} }`: the chain has a second object -/
+def ottoForIn (has : σ → Nat → κ → Bool) (body : κ → σ → Out σ ρ ν) (chain : List (Obj κ)) (s : σ) : Fin σ ρ ν :=
+  outer has body (decide (1 < chain.length)) 0 chain s none []
 
 /-! ## Spec -/
 
-/-- the properties to visit, as (position of the owner, name); `seen` = the names of the objects
+/-- every property of the chain in turn, as (position of the owner, name, enumerable) -/
+def flatAll : Nat → List (Obj κ) → List (Nat × κ × Bool)
+  | _, [] => []
+  | i, o :: rest => (o.props.map fun p => (i, p.1, p.2)) ++ flatAll (i+1) rest
+
+/-- §12.6.4 steps 6–7; `vis` = the names visited so far -/
+def specLoop (has : σ → Nat → κ → Bool) (body : κ → σ → Out σ ρ ν) :
+    List (Nat × κ × Bool) → σ → Option ν → List κ → Fin σ ρ ν
+  | [], s, V, _ => .exhausted V s
+  | (i, k, en) :: r, s, V, vis =>
+    if has s i k && en && !shadowNow has s i k && !vis.contains k then
+      match body k s with
+      | .normal v s' => specLoop has body r s' (orV v V) (k :: vis)
+      | .cont v s' => specLoop has body r s' (orV v V) (k :: vis)
+      | .brk v s' => .broke (orV v V) s'
+      | .exit x s' => .abrupt x s'
+    else specLoop has body r s V vis
+
+def specForIn (has : σ → Nat → κ → Bool) (body : κ → σ → Out σ ρ ν) (chain : List (Obj κ)) (s : σ) : Fin σ ρ ν :=
+  specLoop has body (flatAll 0 chain) s none []
+
+/-! ## The static reading (FnSpec.enumKeys / FnSpec.evalForIn with the body abstracted) -/
+
+/-- the properties to visit, fixed when the statement starts; `seen` = the names of the objects
     nearer the start of the chain -/
-def flat : Nat → List (Props κ) → List κ → List (Nat × κ)
+def flat : Nat → List (Obj κ) → List κ → List (Nat × κ)
   | _, [], _ => []
   | i, o :: rest, seen =>
-    ((o.filter fun p => p.2 && !seen.contains p.1).map fun p => (i, p.1)) ++ flat (i+1) rest (seen ++ names o)
+    ((o.props.filter fun p => p.2 && !seen.contains p.1).map fun p => (i, p.1)) ++ flat (i+1) rest (seen ++ o.names)
 
-/-- §12.6.4 steps 6–7 -/
-def specLoop (has : σ → Nat → κ → Bool) (body : κ → σ → Out σ ρ ν) : List (Nat × κ) → σ → Option ν → Fin σ ρ ν
+def staticLoop (has : σ → Nat → κ → Bool) (body : κ → σ → Out σ ρ ν) : List (Nat × κ) → σ → Option ν → Fin σ ρ ν
   | [], s, V => .exhausted V s
   | (i, k) :: r, s, V =>
     if has s i k then
       match body k s with
-      | .normal v s' => specLoop has body r s' (orV v V)
-      | .cont v s' => specLoop has body r s' (orV v V)
+      | .normal v s' => staticLoop has body r s' (orV v V)
+      | .cont v s' => staticLoop has body r s' (orV v V)
       | .brk v s' => .broke (orV v V) s'
       | .exit x s' => .abrupt x s'
-    else specLoop has body r s V
+    else staticLoop has body r s V
 
-def specForIn (has : σ → Nat → κ → Bool) (body : κ → σ → Out σ ρ ν) (chain : List (Props κ)) (s : σ) : Fin σ ρ ν :=
-  specLoop has body (flat 0 chain []) s none
-
-/-! ## The hypothesis under which the two can agree -/
+def specStatic (has : σ → Nat → κ → Bool) (body : κ → σ → Out σ ρ ν) (chain : List (Obj κ)) (s : σ) : Fin σ ρ ν :=
+  staticLoop has body (flat 0 chain []) s none
 
 /-- Shadowing does not change during the enumeration: for a name that some object of the chain has,
-    an object nearer the start has it in any state iff it had it when the statement started.
-    (Properties that shadow nothing may be deleted freely; nothing is added under a name that a later
-    object has.)  Outside this hypothesis lies the Dev region `forin_revisit`. -/
-def Stable (has : σ → Nat → κ → Bool) (chain : List (Props κ)) : Prop :=
-  ∀ (s : σ) (i j : Nat) (k : κ), j < i → k ∈ names (chain.getD i []) → (has s j k = true ↔ k ∈ names (chain.getD j []))
+    an object nearer the start has it in any state iff it had it when the statement started. -/
+def Stable (has : σ → Nat → κ → Bool) (chain : List (Obj κ)) : Prop :=
+  ∀ (s : σ) (i j : Nat) (k : κ), j < i → (∃ o, chain[i]? = some o ∧ k ∈ o.names) →
+    (has s j k = true ↔ ∃ o, chain[j]? = some o ∧ k ∈ o.names)
 
 end
 end OttoVerif.C01.ForIn
